@@ -124,6 +124,13 @@ def fresh_process_history(acc, wd, first):
     nz = {'a': -0.0, 'b': -0.0, 'c': [-0.0, 0.0], 'd': -0.0, 'e': [{'a': -0.0, 'b': 0.0}, {'a': 0.0, 'b': -0.0}],
           'u': ('y', -0.0), 'i': 0, 'j': 0}
     check_case(acc, sch, w, mod, 'H', ['fresh-process-history', first], 'negative-zero', nz, history=False)
+    nan, inf = float('nan'), float('inf')
+    special = {'a': nan, 'b': nan, 'c': [nan, -inf], 'd': nan, 'e': [{'a': nan, 'b': inf}, {'a': -inf, 'b': nan}],
+               'u': ('x', nan), 'i': -2, 'j': 0x1234}
+    check_case(acc, sch, w, mod, 'H', ['fresh-process-history', first], 'nan-and-infinities', special, history=False)
+    sub = {'a': 1e-45, 'b': 5e-324, 'c': [1.17549435e-38, -1e-45], 'd': -5e-324, 'e': [{'a': 5e-324, 'b': 1e-45}] * 2,
+           'u': ('y', 2.2250738585072014e-308), 'i': 1, 'j': 1}
+    check_case(acc, sch, w, mod, 'H', ['fresh-process-history', first], 'denormals', sub, history=False)
 
 
 def run_shard(spec):
